@@ -30,7 +30,9 @@ META = {
         "parse; all histories of a worker run in ONE process, so state also carries over between histories.  Reference outcome of every (input, "
         "options) = canonical outcome computed in FRESH interpreters (batches, and one parse per process for a sample; batch and single "
         "references must agree).  Oracle: every result equals the reference; after every step every kept tree re-dumps identically and the "
-        "Load/Store/Del singletons carry no instance attributes.  non-trivial = a history with >= 10 steps containing a failing parse, a macro "
+        "Load/Store/Del singletons carry no instance attributes, and the interpreter-wide settings (recursion limit, cwd, locale, warnings filters, "
+        "sys.stdout/stderr, environment, int digit limit, trace/profile hooks, thread count, sys.path) are what they were; half of the threaded "
+        "steps run shallow inputs at the DEFAULT recursion limit and require it to be the default afterwards.  non-trivial = a history with >= 10 steps containing a failing parse, a macro "
         "or path-literal parse and a threaded step; distinct by step sequence."
     ),
     "assumptions": ["thread schedules are sampled (switch interval, thread count), not enumerated: the harness does not own the interpreter's scheduler", "threaded steps never use verbose=True (redirect_stdout is process-wide)"],
@@ -134,6 +136,71 @@ def build_pool(rng, n=250):
 _state = {}
 
 
+def process_settings():
+    """interpreter-wide settings a parse has no business changing (what it finds on entry it leaves on exit)"""
+    import locale
+    import warnings
+
+    return {
+        "recursionlimit": sys.getrecursionlimit(),
+        "cwd": os.getcwd(),
+        "locale": locale.setlocale(locale.LC_ALL),
+        "warnings.filters": len(warnings.filters),
+        "stdout": id(sys.stdout),
+        "stderr": id(sys.stderr),
+        "environ": hash(tuple(sorted(os.environ.items()))),
+        "int_max_str_digits": sys.get_int_max_str_digits(),
+        "trace": id(sys.gettrace()),
+        "profile": id(sys.getprofile()),
+        "threads": threading.active_count(),
+        "sys.path": hash(tuple(sys.path)),
+    }
+
+
+def shallow(src: str) -> bool:
+    """safe to parse at the default recursion limit (finding D22 is about deep nesting)"""
+    depth = mx = 0
+    for ch in src:
+        if ch in "([{":
+            depth += 1
+            mx = max(mx, depth)
+        elif ch in ")]}":
+            depth = max(0, depth - 1)
+    return mx <= 5 and len(src) <= 400 and src.count("\n    ") <= 12
+
+
+def threaded_batch(pool, batch, nthreads, interval, low_limit):
+    """parse the batch on nthreads threads; -> (results, problem or None).  With low_limit the interpreter runs at the
+    default recursion limit meanwhile, and must still be at it afterwards"""
+    barrier = threading.Barrier(min(nthreads, len(batch)))
+    old = sys.getswitchinterval()
+    old_limit = sys.getrecursionlimit()
+    sys.setswitchinterval(interval)
+    if low_limit:
+        sys.setrecursionlimit(1000)
+
+    def work(k, i):
+        if k < barrier.parties:
+            try:
+                barrier.wait(timeout=5)
+            except threading.BrokenBarrierError:
+                pass
+        it = pool[i]
+        return i, parse_no_watchdog(it["src"], it["mode"], it["version"])
+
+    problem = None
+    try:
+        with ThreadPoolExecutor(max_workers=nthreads) as ex:
+            futs = [ex.submit(work, k, i) for k, i in enumerate(batch)]
+            results = [f.result(timeout=300) for f in futs]
+    finally:
+        sys.setswitchinterval(old)
+        if low_limit and sys.getrecursionlimit() != 1000:
+            problem = ("recursionlimit", 1000, sys.getrecursionlimit())
+        sys.setrecursionlimit(old_limit)
+    return results, problem
+
+
 def make_machine(rec, pool, refs, tmpdir):
     S = repo_modules()["S"]
     XP = XonshParser()
@@ -155,6 +222,7 @@ def make_machine(rec, pool, refs, tmpdir):
             self.kept = []
             self.n = 0
             self.flags = set()
+            self.settings = process_settings()
 
         def note(self, i, kind):
             self.n += 1
@@ -219,30 +287,18 @@ def make_machine(rec, pool, refs, tmpdir):
             if got != ref:
                 rec.fail({"steps": list(steps_log), "failing": {"input": it, "what": "parse_file"}}, f"parse_file-differs-from-fresh-interpreter:{ref[0]}->{got[0]}", {"input": it["src"][:200], "reference": [str(x)[:200] for x in ref], "got": [str(x)[:200] for x in got]})
 
-        @rule(batch=st.lists(idx, min_size=2, max_size=12), nthreads=st.integers(2, 8), interval=st.sampled_from([1e-6, 1e-5, 1e-4, 1e-3, 5e-3]))
-        def parse_threads(self, batch, nthreads, interval):
-            steps_log.append(["threads", batch, nthreads, interval])
+        @rule(batch=st.lists(idx, min_size=2, max_size=12), nthreads=st.integers(2, 8), interval=st.sampled_from([1e-6, 1e-5, 1e-4, 1e-3, 5e-3]), low=st.booleans())
+        def parse_threads(self, batch, nthreads, interval, low):
+            if low:
+                batch = [i for i in batch if shallow(pool[i]["src"])]
+                if len(batch) < 2:
+                    return
+            steps_log.append(["threads", batch, nthreads, interval, low])
             self.flags.add("threaded")
-            rec.count("step:threads")
-            barrier = threading.Barrier(min(nthreads, len(batch)))
-            old = sys.getswitchinterval()
-            sys.setswitchinterval(interval)
-
-            def work(k, i):
-                if k < barrier.parties:
-                    try:
-                        barrier.wait(timeout=5)
-                    except threading.BrokenBarrierError:
-                        pass
-                it = pool[i]
-                return i, parse_no_watchdog(it["src"], it["mode"], it["version"])
-
-            try:
-                with ThreadPoolExecutor(max_workers=nthreads) as ex:
-                    futs = [ex.submit(work, k, i) for k, i in enumerate(batch)]
-                    results = [f.result(timeout=300) for f in futs]
-            finally:
-                sys.setswitchinterval(old)
+            rec.count("step:threads" + (":default-recursion-limit" if low else ""))
+            results, problem = threaded_batch(pool, batch, nthreads, interval, low)
+            if problem:
+                rec.fail({"steps": list(steps_log), "failing": {"what": "process-setting"}}, f"process-setting-changed:{problem[0]}", {"setting": problem[0], "before": problem[1], "after": problem[2]})
             for i, got in results:
                 self.note(i, "threaded-parse")
                 expect(i, got, "threaded-parse")
@@ -266,6 +322,11 @@ def make_machine(rec, pool, refs, tmpdir):
             for name in ("Load", "Store", "Del"):
                 if vars(getattr(S, name)):
                     rec.fail({"steps": list(steps_log)}, f"singleton-{name}-has-instance-attributes", {"attrs": sorted(vars(getattr(S, name)))})
+            now = process_settings()
+            if now != self.settings:
+                what = sorted(k for k in now if now[k] != self.settings[k])
+                rec.fail({"steps": list(steps_log), "failing": {"what": "process-setting"}}, f"process-setting-changed:{what[0]}", {"changed": {k: [self.settings[k], now[k]] for k in what}})
+                self.settings = now
 
         def teardown(self):
             nt = self.n >= 10 and {"failing", "macro-or-path", "threaded"} <= self.flags
@@ -284,6 +345,7 @@ def check(rec, case):
     rec.case({"replayed_steps": len(steps)}, False, key=json.dumps(steps)[:2000])
     XP = XonshParser()
     kept = []
+    settings0 = process_settings()
 
     def differs(what, i, got, ref):
         if got != ref:
@@ -327,11 +389,18 @@ def check(rec, case):
             if differs("parse_file", st_[1], got, ref):
                 return
         elif kind == "threads":
-            with ThreadPoolExecutor(max_workers=st_[2]) as ex:
-                res = list(ex.map(lambda i: (i, parse_no_watchdog(pool[i]["src"], pool[i]["mode"], pool[i]["version"])), st_[1]))
+            res, problem = threaded_batch(pool, st_[1], st_[2], st_[3] if len(st_) > 3 else 1e-4, bool(st_[4]) if len(st_) > 4 else False)
+            if problem:
+                rec.fail(case, f"process-setting-changed:{problem[0]}", {"setting": problem[0], "before": problem[1], "after": problem[2]})
+                return
             for i, got in res:
                 if differs("threaded-parse", i, got, refs[i]):
                     return
+        now = process_settings()
+        if now != settings0:
+            what = sorted(k for k in now if now[k] != settings0[k])
+            rec.fail(case, f"process-setting-changed:{what[0]}", {"changed": {k: [settings0[k], now[k]] for k in what}})
+            return
         for i, tree, d in kept:
             if dump(tree) != d:
                 rec.fail(case, "kept-tree-altered-by-later-parse", {"input": pool[i]["src"][:200]})
